@@ -35,6 +35,8 @@ def lower_modern_syntax(tree: ast.Module) -> ast.Module:
       * `match subject: case <literal> | <literal>: ... case _: ...`  ->  if / elif / else on
         `subject == literal` (value, singleton, or-patterns and the wildcard only; any other pattern is
         left as it is and reported as unsupported by whichever evaluator meets it);
+      * inside functions `x: T = e` -> `x = e` (local annotations carry no behaviour);
+      * `list(map(f, xs))` -> `[f(t) for t in xs]`;
       * `if (x := e) <op> ...:` / `y = f((x := e))`  ->  `x = e` before the statement, when the
         assignment expression is evaluated unconditionally (not under and/or, a conditional expression
         or a comprehension).
@@ -80,6 +82,60 @@ def lower_modern_syntax(tree: ast.Module) -> ast.Module:
             return ast.fix_missing_locations(chain[0])
 
     tree = Lower().visit(tree)
+
+    class Plain(ast.NodeTransformer):
+        """Inside functions, `x: T = e` -> `x = e` and a bare declaration `x: T` disappears: a local type
+        annotation has no effect at run time and no rule reads one."""
+
+        def __init__(self):
+            self.in_func = 0
+
+        def visit_FunctionDef(self, n):
+            self.in_func += 1
+            self.generic_visit(n)
+            self.in_func -= 1
+            if not n.body:
+                n.body = [ast.copy_location(ast.Pass(), n)]
+            return n
+
+        visit_AsyncFunctionDef = visit_FunctionDef
+
+        def visit_ClassDef(self, n):
+            saved, self.in_func = self.in_func, 0
+            self.generic_visit(n)
+            self.in_func = saved
+            return n
+
+        def visit_AnnAssign(self, n: ast.AnnAssign):
+            if not self.in_func:
+                return n
+            if n.value is None:
+                return ast.copy_location(ast.Pass(), n)
+            return ast.copy_location(ast.Assign(targets=[n.target], value=n.value), n)
+
+    tree = ast.fix_missing_locations(Plain().visit(tree))
+
+    class MapToComp(ast.NodeTransformer):
+        """`list(map(f, xs))` -> `[f(x) for x in xs]`, `tuple(map(f, xs))` -> `tuple(f(x) for x in xs)` for a
+        named function / bound method f and one iterable (the builtins; same elements in the same order)."""
+
+        def visit_Call(self, n: ast.Call):
+            self.generic_visit(n)
+            if isinstance(n.func, ast.Name) and n.func.id in ("list", "tuple") and len(n.args) == 1 and not n.keywords:
+                m = n.args[0]
+                if isinstance(m, ast.Call) and isinstance(m.func, ast.Name) and m.func.id == "map" and len(m.args) == 2 and not m.keywords and isinstance(m.args[0], (ast.Name, ast.Attribute)):
+                    var = "t"
+                    used = {x.id for x in ast.walk(m) if isinstance(x, ast.Name)}
+                    while var in used:
+                        var += "_"
+                    elt = ast.Call(func=m.args[0], args=[ast.Name(id=var, ctx=ast.Load())], keywords=[])
+                    gen = [ast.comprehension(target=ast.Name(id=var, ctx=ast.Store()), iter=m.args[1], ifs=[], is_async=0)]
+                    if n.func.id == "list":
+                        return ast.copy_location(ast.ListComp(elt=elt, generators=gen), n)
+                    n.args = [ast.copy_location(ast.GeneratorExp(elt=elt, generators=gen), m)]
+            return n
+
+    tree = ast.fix_missing_locations(MapToComp().visit(tree))
 
     def hoistable(root: ast.expr) -> list:
         """NamedExpr nodes evaluated unconditionally when `root` is evaluated."""
@@ -211,7 +267,7 @@ class FuncInfo:
         return out
 
     def loc(self, node: Optional[ast.AST] = None) -> str:
-        ln = getattr(node, "lineno", None) if node is not None else self.node.lineno
+        ln = line_of(node) if node is not None else line_of(self.node)
         return f"{self.file}:{ln}"
 
 
@@ -321,7 +377,6 @@ class Program:
         """role -> default module / class, read from model.init_module's dict literals."""
         self.role_module: dict[str, str] = {}
         self.role_class: dict[str, str] = {}
-        self.role_order: list[str] = []
         if "model" not in self.modules:
             return
         fi = self.modules["model"].functions.get("init_module")
@@ -368,19 +423,26 @@ class Program:
                     self.role_module = {r: m[0][len("ladim.") :] for r, m in mods.items()}
                 if not self.role_class and all(len(c) == 1 for c in clss.values()):
                     self.role_class = {r: c[0] for r, c in clss.items()}
-        init = self.modules["model"].functions.get("Model.__init__")
-        if init is not None:
-            for node in ast.walk(init.node):
-                if (
-                    isinstance(node, ast.Assign)
-                    and isinstance(node.value, ast.List)
-                    and len(node.targets) == 1
-                    and isinstance(node.targets[0], ast.Name)
-                    and node.targets[0].id == "module_names"
-                ):
-                    self.role_order = [
-                        e.value for e in node.value.elts if isinstance(e, ast.Constant)
-                    ]
+
+    @property
+    def role_order(self) -> list:
+        """The order in which Model.__init__ constructs the roles: the literal first arguments of the
+        init_module calls of its reading view (the loop over the literal table is unrolled there, whether
+        the table is a local, a class constant or written in the loop header)."""
+        if "_role_order" not in self.__dict__:
+            order: list = []
+            if "Model.__init__" in self.modules["model"].functions:
+                v = self.view("model.Model.__init__")
+
+                def dfs(n):
+                    for c in ast.iter_child_nodes(n):
+                        if isinstance(c, ast.Call) and unparse(c.func) == "init_module" and c.args and isinstance(c.args[0], ast.Constant):
+                            order.append(c.args[0].value)
+                        dfs(c)
+
+                dfs(v.node)
+            self.__dict__["_role_order"] = order
+        return self.__dict__["_role_order"]
 
     # ------------------------------------------------------------------
     def module(self, name: str) -> ModuleInfo:
@@ -417,6 +479,105 @@ class Program:
                             return f
                 raise AnchorMissing(f"function {qual} not found in {mi.relpath}")
         raise AnchorMissing(f"function {qual}: no such module")
+
+    def view(self, qual: str, propagate: bool = False) -> FuncInfo:
+        """The reading view (see `reading_view`) of a function, cached."""
+        cache = self.__dict__.setdefault("_views", {})
+        key = (qual, propagate)
+        if key not in cache:
+            cache[key] = reading_view(self, self.func(qual), propagate=propagate)
+        return cache[key]
+
+    def record_fields(self, mod: str, cls: str):
+        """Field names (with default expressions) of a value class defined in the repository - a
+        NamedTuple subclass or a @dataclass - or None. Such classes only bundle values; the interpreter
+        and the normalisers look through them."""
+        mi = self.modules.get(mod)
+        c = mi.classes.get(cls) if mi else None
+        if c is None:
+            return None
+        is_nt = any(unparse(b).split(".")[-1] == "NamedTuple" for b in c.bases)
+        is_dc = any(unparse(d.func if isinstance(d, ast.Call) else d).split(".")[-1] == "dataclass" for d in c.decorator_list)
+        if not (is_nt or is_dc):
+            return None
+        out = []
+        for st in c.body:
+            if isinstance(st, ast.AnnAssign) and isinstance(st.target, ast.Name) and "ClassVar" not in unparse(st.annotation):
+                out.append((st.target.id, st.value))
+        return out
+
+    def record_class_of(self, fi: FuncInfo, name: str):
+        """(module, class) when `name`, as seen from the module of `fi`, denotes a value class."""
+        mi = fi.module
+        if name in mi.classes and self.record_fields(mi.name, name) is not None:
+            return (mi.name, name)
+        target = mi.imports.get(name)
+        if target and target.startswith("ladim."):
+            tmod, _, tname = target[len("ladim.") :].rpartition(".")
+            if self.record_fields(tmod, tname) is not None:
+                return (tmod, tname)
+        return None
+
+    def callers_of(self, qual: str) -> list:
+        """Functions of the repository containing a call that resolves to `qual` (cached call graph)."""
+        cg = self.__dict__.get("_callers")
+        if cg is None:
+            cg = {}
+            for f in list(self.all_functions()):
+                try:
+                    env = self.type_env(f)
+                except Exception:  # noqa: BLE001
+                    env = {}
+                for n in ast.walk(f.node):
+                    if isinstance(n, ast.Call):
+                        for g in self.resolve_call(f, n, env):
+                            cg.setdefault(g.qual, set()).add(f.qual)
+                    # a bound method handed on (map(self._f, ...), key=self._f)
+                    elif isinstance(n, ast.Attribute) and isinstance(n.ctx, ast.Load) and isinstance(n.value, ast.Name) and n.value.id in ("self", "cls") and f.cls:
+                        q = f"{f.module.name}.{f.cls}.{n.attr}"
+                        if q in {x.qual for x in f.module.functions.values()}:
+                            cg.setdefault(q, set()).add(f.qual)
+                    elif isinstance(n, ast.Name) and isinstance(n.ctx, ast.Load) and n.id in f.module.functions:
+                        cg.setdefault(f.module.functions[n.id].qual, set()).add(f.qual)
+            self.__dict__["_callers"] = cg
+        return sorted(cg.get(qual, ()))
+
+    def effective_owners(self, qual: str) -> set:
+        """The public functions on whose behalf `qual` runs: a private helper (`_name`, not a dunder) that
+        is only ever called from inside the repository counts as part of its callers, transitively. A
+        who-may-write rule that names `State.append` then also admits the helpers `append` is split into -
+        and keeps rejecting a helper that some other function calls as well."""
+        out: set = set()
+        seen: set = set()
+
+        def go(q: str) -> None:
+            if q in seen:
+                return
+            seen.add(q)
+            name = q.rsplit(".", 1)[-1]
+            private = name.startswith("_") and not name.startswith("__")
+            callers = [c for c in self.callers_of(q) if c != q] if private else []
+            if not callers:
+                out.add(q)
+                return
+            for c in callers:
+                go(c)
+
+        go(qual)
+        return out
+
+    def lview(self, fi_or_qual, keep=frozenset()) -> FuncInfo:
+        """The light view of a function: class-level constants and private helpers inlined, tests on
+        literal flags folded, handle aliases expanded - loops and statements otherwise as written. For
+        interpreters and structural rules that should not care how a method is split into helpers.
+        `keep` names helpers the rule models itself (they stay calls)."""
+        fi = self.func(fi_or_qual) if isinstance(fi_or_qual, str) else fi_or_qual
+        cache = self.__dict__.setdefault("_lviews", {})
+        key = (fi.qual, frozenset(keep))
+        if key not in cache:
+            f = inline_helpers(self, inline_class_constants(self, fi), keep=frozenset(keep))
+            cache[key] = _with_lines(lower_partials(project_record_fields(self, expand_handle_aliases(fold_constant_tests(inline_class_constants(self, f))))))
+        return cache[key]
 
     def has_func(self, qual: str) -> bool:
         try:
@@ -1026,29 +1187,116 @@ def _ends_with_return(stmts: list) -> bool:
     return False
 
 
-def _helper_of(prog: "Program", fi: FuncInfo, call: ast.Call, private_only: bool) -> Optional[FuncInfo]:
+def _with_lines(fi: "FuncInfo") -> "FuncInfo":
+    inherit_orig_lines(fi.node)
+    return fi
+
+
+def line_of(node) -> Optional[int]:
+    """Source line of a node (the original one when a view has renumbered it)."""
+    return getattr(node, "orig_lineno", getattr(node, "lineno", None))
+
+
+def renumber_in_order(fn: ast.AST) -> None:
+    """After statements of a helper have been spliced into a function their line numbers no longer say
+    which comes first. Rules order statements by `lineno`, so the view is renumbered in document order
+    (statement k gets 1000*k + its offset inside the statement); the source line survives as
+    `orig_lineno`, which `line_of`, `FuncInfo.loc` and the path descriptions report."""
+    k = [0]
+
+    def own_nodes(st):
+        """nodes of the statement that are not part of a nested statement"""
+        out = [st]
+        stack = [c for c in ast.iter_child_nodes(st) if not isinstance(c, ast.stmt)]
+        while stack:
+            x = stack.pop()
+            out.append(x)
+            stack += [c for c in ast.iter_child_nodes(x) if not isinstance(c, ast.stmt)]
+        return out
+
+    def visit(stmts):
+        for st in stmts:
+            k[0] += 1
+            base = line_of(st) or 0
+            for x in own_nodes(st):
+                if hasattr(x, "lineno"):
+                    o = line_of(x)
+                    x.orig_lineno = o
+                    x.lineno = 1000 * k[0] + max(0, min(999, (o or base) - base))
+                    if hasattr(x, "end_lineno"):
+                        x.end_lineno = x.lineno
+            for field in ("body", "orelse", "finalbody"):
+                sub = getattr(st, field, None)
+                if isinstance(sub, list) and sub and isinstance(sub[0], ast.stmt):
+                    visit(sub)
+            if isinstance(st, ast.Try):
+                for h in st.handlers:
+                    k[0] += 1
+                    h.orig_lineno = line_of(h)
+                    h.lineno = 1000 * k[0]
+                    visit(h.body)
+            if hasattr(ast, "Match") and isinstance(st, ast.Match):
+                for c in st.cases:
+                    visit(c.body)
+
+    visit(fn.body)
+
+
+def inherit_orig_lines(fn: ast.AST) -> None:
+    """Nodes created by a later transformation of a renumbered view take the source line of their
+    parent, so that reports never show a view-internal number."""
+
+    def go(n, parent_line):
+        if hasattr(n, "lineno") and not hasattr(n, "orig_lineno") and parent_line is not None:
+            n.orig_lineno = parent_line
+        here = getattr(n, "orig_lineno", parent_line)
+        for c in ast.iter_child_nodes(n):
+            go(c, here)
+
+    if any(hasattr(x, "orig_lineno") for x in ast.walk(fn)):
+        # the function node itself keeps its own line
+        go(fn, getattr(fn, "orig_lineno", None) or next((x.orig_lineno for x in ast.walk(fn) if hasattr(x, "orig_lineno")), None))
+
+
+def _helper_of(prog: "Program", fi: FuncInfo, call: ast.Call, private_only: bool, keep=frozenset()) -> Optional[FuncInfo]:
     f = call.func
     name = None
     qual = None
     if isinstance(f, ast.Name):
         name = f.id
         qual = f"{fi.module.name}.{name}"
-    elif isinstance(f, ast.Attribute) and isinstance(f.value, ast.Name) and f.value.id == "self" and fi.cls:
+    elif isinstance(f, ast.Attribute) and isinstance(f.value, ast.Name) and f.value.id in ("self", "cls", fi.cls) and fi.cls:
         name = f.attr
         qual = f"{fi.module.name}.{fi.cls}.{name}"
-    if name is None or (private_only and not name.startswith("_")) or name.startswith("__"):
+    elif isinstance(f, ast.Attribute) and isinstance(f.value, ast.Name) and f.value.id in fi.module.classes and (f.value.id.startswith("_") or prog.record_fields(fi.module.name, f.value.id) is not None):
+        # a class method / static method of a private or value class of the module, called on the class
+        h0 = fi.module.functions.get(f"{f.value.id}.{f.attr}")
+        if h0 is None or not any(unparse(d) in ("classmethod", "staticmethod") for d in h0.node.decorator_list):
+            return None
+        name = f.attr
+        qual = f"{fi.module.name}.{f.value.id}.{name}"
+        private_only = False
+    if name is None or (private_only and not name.startswith("_")) or name.startswith("__") or name in keep:
         return None
     try:
         h = prog.func(qual)
     except (AnchorMissing, AnalysisError):
         return None
-    if h.qual == fi.qual or h.is_kernel or h.node.decorator_list:
+    decos = [unparse(d) for d in h.node.decorator_list]
+    if h.qual == fi.qual or h.is_kernel or any(d not in ("staticmethod", "classmethod") for d in decos):
         return None
     body = [s for s in h.node.body if not (isinstance(s, ast.Expr) and isinstance(s.value, ast.Constant))]
     # simple: no generators / nested defs; `return` only as the last top-level statement
+    own_names = {x.id for x in ast.walk(h.node) if isinstance(x, ast.Name) and isinstance(x.ctx, (ast.Store, ast.Del))} | {a.arg for a in h.node.args.posonlyargs + h.node.args.args + h.node.args.kwonlyargs}
     for n in ast.walk(h.node):
-        if isinstance(n, (ast.Yield, ast.YieldFrom, ast.Lambda)) or (isinstance(n, (ast.FunctionDef, ast.ClassDef)) and n is not h.node):
+        if isinstance(n, (ast.Yield, ast.YieldFrom)) or (isinstance(n, (ast.FunctionDef, ast.ClassDef)) and n is not h.node):
             return None
+        if isinstance(n, ast.Lambda):
+            # a lambda is carried along unchanged when its parameters cannot be confused with the
+            # helper's own names (which are renamed / substituted)
+            la = n.args
+            if {a.arg for a in la.posonlyargs + la.args + la.kwonlyargs} & own_names or la.vararg or la.kwarg:
+                return None
     rets = [n for n in ast.walk(h.node) if isinstance(n, ast.Return)]
     if rets and all(r.value is None for r in rets):
         # a procedure with guard clauses (`if c: return`): acceptable when the early returns can be
@@ -1066,7 +1314,7 @@ def _helper_of(prog: "Program", fi: FuncInfo, call: ast.Call, private_only: bool
     return h
 
 
-def inline_helpers(prog: "Program", fi: FuncInfo, depth: int = 2, private_only: bool = True) -> FuncInfo:
+def inline_helpers(prog: "Program", fi: FuncInfo, depth: int = 2, private_only: bool = True, keep=frozenset()) -> FuncInfo:
     """Copy of `fi` in which calls to small helpers of the same module / class (private by default) are
     replaced by their bodies: parameters become assignments, locals are renamed apart, the returned
     expression is bound to the call's target. A rule that reads the statements of `fi` then sees the
@@ -1090,9 +1338,11 @@ def inline_helpers(prog: "Program", fi: FuncInfo, depth: int = 2, private_only: 
         tag = f"__{h.name.strip('_')}{counter[0]}"
         node = copy.deepcopy(h.node)
         params = [a.arg for a in node.args.posonlyargs + node.args.args + node.args.kwonlyargs]
-        is_method = bool(h.cls) and params and params[0] == "self"
+        decos = [unparse(d) for d in node.decorator_list]
+        is_method = bool(h.cls) and params and "staticmethod" not in decos
+        receiver = None
         if is_method:
-            params = params[1:]
+            receiver, params = params[0], params[1:]
         local_names = {x.id for x in ast.walk(node) if isinstance(x, ast.Name) and isinstance(x.ctx, (ast.Store, ast.Del))} | set(params)
         mapping = {n: n + tag for n in local_names}
         # bind arguments
@@ -1111,11 +1361,15 @@ def inline_helpers(prog: "Program", fi: FuncInfo, depth: int = 2, private_only: 
                 e = e.value
             return isinstance(e, ast.Name)
 
+        if receiver is not None and receiver != "self":
+            # classmethod (or an oddly named receiver): the receiver is the class / the caller's self
+            direct[receiver] = ast.Name(id=h.cls if "classmethod" in decos else "self", ctx=ast.Load())
+            mapping.pop(receiver, None)
         for p_ in params:
             v = bound.get(p_, dflt.get(p_))
             if v is None:
                 return None
-            if simple_path(v) and p_ not in stored_in_helper:
+            if (simple_path(v) or isinstance(v, ast.Constant)) and p_ not in stored_in_helper:
                 direct[p_] = copy.deepcopy(v)  # the parameter is just another name for the argument
                 mapping.pop(p_, None)
                 continue
@@ -1157,7 +1411,7 @@ def inline_helpers(prog: "Program", fi: FuncInfo, depth: int = 2, private_only: 
                 for c in ast.walk(e):
                     if not isinstance(c, ast.Call):
                         continue
-                    h = _helper_of(prog, fi, c, private_only)
+                    h = _helper_of(prog, fi, c, private_only, keep)
                     if h is None:
                         continue
                     hb = [s_ for s_ in h.node.body if not (isinstance(s_, ast.Expr) and isinstance(s_.value, ast.Constant))]
@@ -1212,7 +1466,7 @@ def inline_helpers(prog: "Program", fi: FuncInfo, depth: int = 2, private_only: 
                 guard += 1
                 for c in ast.walk(holder.value):
                     if isinstance(c, ast.Call):
-                        h = _helper_of(prog, fi, c, private_only)
+                        h = _helper_of(prog, fi, c, private_only, keep)
                         if h is None:
                             continue
                         ex = expand_call(c, h)
@@ -1241,6 +1495,8 @@ def inline_helpers(prog: "Program", fi: FuncInfo, depth: int = 2, private_only: 
     node = copy.deepcopy(fi.node)
     node.body = process(node.body, depth)
     ast.fix_missing_locations(node)
+    if counter[0]:
+        renumber_in_order(node)
     return FuncInfo(fi.module, fi.qual, node, fi.cls)
 
 
@@ -1311,7 +1567,7 @@ def forward_attr_locals(fi: FuncInfo) -> FuncInfo:
 
 def normalized(prog: "Program", fi: FuncInfo) -> FuncInfo:
     """Helper calls inlined, locals that are merely forwarded to attributes replaced by the attributes."""
-    return forward_attr_locals(inline_helpers(prog, fi))
+    return forward_attr_locals(prog.lview(fi))
 
 
 # ---------------------------------------------------------------------------
@@ -1364,7 +1620,7 @@ def path_records(body: list, init_env: Optional[dict] = None, rename: Optional[d
             e2 = _Subst(dict(env), depth=1).visit(copy.deepcopy(e))
             if rename:
                 e2 = _Subst({k: ast.Name(id=v, ctx=ast.Load()) for k, v in rename.items()}, depth=1).visit(e2)
-            return ast.fix_missing_locations(e2)
+            return lower_slice_calls(ast.fix_missing_locations(e2))
 
         conds, stores = [], []
         for kind, node, *rest in p.steps:
@@ -1598,19 +1854,577 @@ def sink_branch_temporaries(fi: FuncInfo) -> FuncInfo:
     return FuncInfo(fi.module, fi.qual, ast.fix_missing_locations(node), fi.cls)
 
 
+_OPERATOR_FUNCS = {
+    "lt": ast.Lt, "le": ast.LtE, "gt": ast.Gt, "ge": ast.GtE, "eq": ast.Eq, "ne": ast.NotEq,
+    "add": ast.Add, "sub": ast.Sub, "mul": ast.Mult, "truediv": ast.Div, "floordiv": ast.FloorDiv, "mod": ast.Mod,
+    "and_": ast.BitAnd, "or_": ast.BitOr, "neg": ast.USub, "not_": ast.Not,
+}
+
+
+def lower_operator_calls(node: ast.AST) -> ast.AST:
+    """`operator.ge(a, b)` -> `a >= b` etc. (in place; the standard-library module under its own name)."""
+
+    class T(ast.NodeTransformer):
+        def visit_Call(self, n: ast.Call):
+            self.generic_visit(n)
+            f = n.func
+            if isinstance(f, ast.Attribute) and isinstance(f.value, ast.Name) and f.value.id == "operator" and f.attr in _OPERATOR_FUNCS and not n.keywords:
+                op = _OPERATOR_FUNCS[f.attr]
+                if issubclass(op, ast.cmpop) and len(n.args) == 2:
+                    return ast.copy_location(ast.Compare(left=n.args[0], ops=[op()], comparators=[n.args[1]]), n)
+                if issubclass(op, ast.operator) and len(n.args) == 2:
+                    return ast.copy_location(ast.BinOp(left=n.args[0], op=op(), right=n.args[1]), n)
+                if issubclass(op, ast.unaryop) and len(n.args) == 1:
+                    return ast.copy_location(ast.UnaryOp(op=op(), operand=n.args[0]), n)
+            return n
+
+    return ast.fix_missing_locations(T().visit(node))
+
+
+def distribute_branch_functions(fi: FuncInfo) -> FuncInfo:
+    """`if c: f, g = A, B else: f, g = C, D` ... `S(f(x))` ...  ->  ... `if c: S(A(x)) else: S(C(x))` ...
+    for locals that are bound only in the two arms of one top-level if/else to plain function references
+    (names / dotted names, e.g. `operator.ge`) and only ever called afterwards; c must be call-free and
+    nothing in the function may store to what c reads (the test is repeated at every use). The arms'
+    definitions disappear; `operator.*` calls are then written as operators."""
+    import copy
+
+    node = copy.deepcopy(fi.node)
+    body = node.body
+    changed = False
+    for idx, st in enumerate(list(body)):
+        if not (isinstance(st, ast.If) and st.body and st.orelse):
+            continue
+        if any(isinstance(x, (ast.Call, ast.NamedExpr)) for x in ast.walk(st.test)):
+            continue
+
+        def defs_of(arm):
+            out = {}
+            for a in arm:
+                if not (isinstance(a, ast.Assign) and len(a.targets) == 1):
+                    return None
+                t, v = a.targets[0], a.value
+                pairs = list(zip(t.elts, v.elts)) if isinstance(t, ast.Tuple) and isinstance(v, ast.Tuple) and len(t.elts) == len(v.elts) else [(t, v)]
+                for tt, vv in pairs:
+                    e = vv
+                    while isinstance(e, ast.Attribute):
+                        e = e.value
+                    if not (isinstance(tt, ast.Name) and isinstance(e, ast.Name) and isinstance(vv, (ast.Name, ast.Attribute))):
+                        return None
+                    out[tt.id] = vv
+            return out
+
+        da, db = defs_of(st.body), defs_of(st.orelse)
+        if not da or not db or set(da) != set(db):
+            continue
+        names = set(da)
+        # bound nowhere else, and every load is the callee of a call
+        all_stores = [x for x in ast.walk(node) if isinstance(x, ast.Name) and x.id in names and isinstance(x.ctx, ast.Store)]
+        in_arms = [x for a in st.body + st.orelse for x in ast.walk(a) if isinstance(x, ast.Name) and x.id in names and isinstance(x.ctx, ast.Store)]
+        if len(all_stores) != len(in_arms):
+            continue
+        callee_ids = {id(c.func) for c in ast.walk(node) if isinstance(c, ast.Call)}
+        loads = [x for x in ast.walk(node) if isinstance(x, ast.Name) and x.id in names and isinstance(x.ctx, ast.Load)]
+        if not loads or any(id(x) not in callee_ids for x in loads):
+            continue
+        # the test is stable
+        read = {unparse(x) for x in ast.walk(st.test) if isinstance(x, (ast.Name, ast.Attribute, ast.Subscript))}
+        stored = {unparse(t) for later in body[idx + 1 :] for x in ast.walk(later) if isinstance(x, (ast.Assign, ast.AugAssign)) for t in (x.targets if isinstance(x, ast.Assign) else [x.target])}
+        if read & stored:
+            continue
+        # the functions' own names must not be re-bound either (operator, module functions)
+        new_body = []
+        for j, other in enumerate(body):
+            if other is st:
+                continue
+            uses = any(isinstance(x, ast.Name) and x.id in names for x in ast.walk(other))
+            if not uses or j < idx:
+                new_body.append(other)
+                continue
+            if not isinstance(other, (ast.Assign, ast.AugAssign, ast.Expr, ast.Return)):
+                new_body = None
+                break
+            arm_a = lower_operator_calls(_Subst(da, depth=1).visit(copy.deepcopy(other)))
+            arm_b = lower_operator_calls(_Subst(db, depth=1).visit(copy.deepcopy(other)))
+            new_body.append(ast.copy_location(ast.If(test=copy.deepcopy(st.test), body=[arm_a], orelse=[arm_b]), other))
+        if new_body is None:
+            continue
+        body = new_body
+        changed = True
+        break  # indices refer to the old body: one conditional per pass
+    if not changed:
+        return fi
+    node.body = body
+    return distribute_branch_functions(FuncInfo(fi.module, fi.qual, ast.fix_missing_locations(node), fi.cls))
+
+
+def record_ctor_as_tuple(prog: "Program", fi: FuncInfo, e: ast.expr) -> ast.expr:
+    """`Rec(a, b, c)` / `Rec(x=a, ...)` of a value class -> the tuple `(a, b, c)` in field order (a
+    NamedTuple is that tuple; callers that destructure the result see the same thing)."""
+    if isinstance(e, ast.Call) and isinstance(e.func, ast.Name) and not any(isinstance(a, ast.Starred) for a in e.args):
+        rc = prog.record_class_of(fi, e.func.id)
+        if rc is not None:
+            fields = prog.record_fields(*rc)
+            vals = {}
+            for (fname, _d), a in zip(fields, e.args):
+                vals[fname] = a
+            for k in e.keywords:
+                if k.arg is None:
+                    return e
+                vals[k.arg] = k.value
+            if all(f_ in vals for f_, _ in fields):
+                return ast.fix_missing_locations(ast.copy_location(ast.Tuple(elts=[vals[f_] for f_, _ in fields], ctx=ast.Load()), e))
+    return e
+
+
+def lower_comprehension_loops(fi: FuncInfo) -> FuncInfo:
+    """`for T in G` / `for n, T in enumerate(G[, start])` where G is a generator expression or list
+    comprehension with several `for` clauses (written in the header or bound once to a local used nowhere
+    else) -> the nested loops themselves, the element bound to T at the top of the innermost body and the
+    enumeration written as a running counter (`n = start - 1` before, `n += 1` inside)."""
+    import copy
+
+    node = copy.deepcopy(fi.node)
+    sd = single_defs(node)
+    uses: dict = {}
+    for n in ast.walk(node):
+        if isinstance(n, ast.Name) and isinstance(n.ctx, ast.Load):
+            uses[n.id] = uses.get(n.id, 0) + 1
+    dropped = set()
+
+    def gen_of(e):
+        if isinstance(e, (ast.GeneratorExp, ast.ListComp)):
+            return e, None
+        if isinstance(e, ast.Name) and isinstance(sd.get(e.id), (ast.GeneratorExp, ast.ListComp)) and uses.get(e.id, 0) == 1:
+            return sd[e.id], e.id
+        return None, None
+
+    class T(ast.NodeTransformer):
+        def visit_For(self, n: ast.For):
+            self.generic_visit(n)
+            if n.orelse:
+                return n
+            it = n.iter
+            counter = None
+            start = 0
+            target = n.target
+            if isinstance(it, ast.Call) and isinstance(it.func, ast.Name) and it.func.id == "enumerate" and it.args and isinstance(target, ast.Tuple) and len(target.elts) == 2 and isinstance(target.elts[0], ast.Name):
+                if len(it.args) == 2 or it.keywords:
+                    sv = it.args[1] if len(it.args) == 2 else it.keywords[0].value
+                    if not (isinstance(sv, ast.Constant) and isinstance(sv.value, int)):
+                        return n
+                    start = sv.value
+                counter = target.elts[0].id
+                target = target.elts[1]
+                it = it.args[0]
+            g, local = gen_of(it)
+            if g is None or len(g.generators) < 2 or any(c.is_async for c in g.generators):
+                return n
+            if any(isinstance(x, (ast.Break, ast.Continue)) for b in n.body for x in ast.walk(b)):
+                return n
+            inner: list = []
+            if counter:
+                inner.append(ast.AugAssign(target=ast.Name(id=counter, ctx=ast.Store()), op=ast.Add(), value=ast.Constant(value=1)))
+            tgt = copy.deepcopy(target)
+            for x in ast.walk(tgt):
+                if isinstance(x, (ast.Name, ast.Tuple, ast.List)):
+                    x.ctx = ast.Store()
+            # (a, b) = (a, b): the element is the tuple of the loop variables themselves
+            if not (unparse(tgt) == unparse(g.elt)):
+                inner.append(ast.Assign(targets=[tgt], value=copy.deepcopy(g.elt), lineno=n.lineno))
+            inner += n.body
+            body = inner
+            for c in reversed(g.generators):
+                for cond in reversed(c.ifs):
+                    body = [ast.If(test=cond, body=body, orelse=[])]
+                body = [ast.For(target=c.target, iter=c.iter, body=body, orelse=[], lineno=n.lineno, col_offset=n.col_offset)]
+            out = []
+            if counter:
+                out.append(ast.Assign(targets=[ast.Name(id=counter, ctx=ast.Store())], value=ast.Constant(value=start - 1), lineno=n.lineno))
+            out += body
+            if local:
+                dropped.add(local)
+            for o in out:
+                ast.copy_location(o, n)
+            return out
+
+    node = T().visit(node)
+
+    class D(ast.NodeTransformer):
+        def visit_Assign(self, n: ast.Assign):
+            if len(n.targets) == 1 and isinstance(n.targets[0], ast.Name) and n.targets[0].id in dropped:
+                return None
+            return n
+
+        def visit_AnnAssign(self, n: ast.AnnAssign):
+            if isinstance(n.target, ast.Name) and n.target.id in dropped:
+                return None
+            return n
+
+    node = ast.fix_missing_locations(D().visit(node))
+    return FuncInfo(fi.module, fi.qual, node, fi.cls)
+
+
+def lower_partials(fi: FuncInfo) -> FuncInfo:
+    """`g = partial(f, a, k=v); g(b, m=w)` -> `f(a, b, k=v, m=w)` for a local bound once to
+    functools.partial whose frozen arguments are call-free access paths or literals (re-evaluating them
+    at the call is then the same thing, as long as nothing they name is stored in between - checked)."""
+    import copy
+
+    node = copy.deepcopy(fi.node)
+    sd = single_defs(node)
+    parts = {}
+    for name, v in sd.items():
+        if isinstance(v, ast.Call) and unparse(v.func) in ("partial", "functools.partial") and v.args and not any(isinstance(a, ast.Starred) for a in v.args) and all(k.arg for k in v.keywords):
+            frozen = list(v.args[1:]) + [k.value for k in v.keywords]
+            if any(isinstance(x, (ast.Call, ast.NamedExpr, ast.Await, ast.Yield)) for a in frozen for x in ast.walk(a)):
+                continue
+            # names / paths read by the frozen arguments must not be stored after the definition
+            read = {unparse(x) for a in frozen for x in ast.walk(a) if isinstance(x, (ast.Name, ast.Attribute, ast.Subscript))}
+            stores_after = set()
+            seen = False
+            for st in ast.walk(node):
+                if isinstance(st, (ast.Assign, ast.AugAssign)):
+                    tg = st.targets if isinstance(st, ast.Assign) else [st.target]
+                    if isinstance(st, ast.Assign) and st.value is v:
+                        seen = True
+                        continue
+                    if seen:
+                        stores_after |= {unparse(t) for t in tg}
+            if read & stores_after:
+                continue
+            parts[name] = v
+    if not parts:
+        return fi
+
+    class T(ast.NodeTransformer):
+        def visit_Call(self, n: ast.Call):
+            self.generic_visit(n)
+            if isinstance(n.func, ast.Name) and n.func.id in parts:
+                pv = parts[n.func.id]
+                given = {k.arg for k in n.keywords}
+                return ast.copy_location(
+                    ast.Call(func=copy.deepcopy(pv.args[0]), args=[copy.deepcopy(a) for a in pv.args[1:]] + n.args, keywords=[copy.deepcopy(k) for k in pv.keywords if k.arg not in given] + n.keywords),
+                    n,
+                )
+            return n
+
+        def visit_Assign(self, n: ast.Assign):
+            if len(n.targets) == 1 and isinstance(n.targets[0], ast.Name) and n.targets[0].id in parts and n.value is parts[n.targets[0].id]:
+                return None
+            self.generic_visit(n)
+            return n
+
+    # only when every load of the name is a call of it
+    for name in list(parts):
+        loads = [x for x in ast.walk(node) if isinstance(x, ast.Name) and x.id == name and isinstance(x.ctx, ast.Load)]
+        callee_ids = {id(c.func) for c in ast.walk(node) if isinstance(c, ast.Call)}
+        if any(id(x) not in callee_ids for x in loads):
+            del parts[name]
+    if not parts:
+        return fi
+    node = ast.fix_missing_locations(T().visit(node))
+    return FuncInfo(fi.module, fi.qual, node, fi.cls)
+
+
+def lower_slice_calls(e: ast.AST) -> ast.AST:
+    """x[slice(a, b)] -> x[a:b], x[slice(n)] -> x[:n] (in place; the builtin slice)."""
+
+    class T(ast.NodeTransformer):
+        def visit_Subscript(self, n: ast.Subscript):
+            self.generic_visit(n)
+            c = n.slice
+            if isinstance(c, ast.Call) and isinstance(c.func, ast.Name) and c.func.id == "slice" and not c.keywords and 1 <= len(c.args) <= 3:
+                none = lambda a: None if (isinstance(a, ast.Constant) and a.value is None) else a  # noqa: E731
+                if len(c.args) == 1:
+                    n.slice = ast.Slice(lower=None, upper=none(c.args[0]), step=None)
+                else:
+                    n.slice = ast.Slice(lower=none(c.args[0]), upper=none(c.args[1]), step=none(c.args[2]) if len(c.args) == 3 else None)
+            return n
+
+    return ast.fix_missing_locations(T().visit(e))
+
+
+def project_record_fields(prog: "Program", fi: FuncInfo) -> FuncInfo:
+    """`rec = Rec(a, b); ... rec.x ...` -> `rec__x = a; rec__y = b; ... rec__x ...` for value classes of the
+    repository (NamedTuple / dataclass), when the local is bound once and only its fields are read."""
+    import copy
+
+    node = copy.deepcopy(fi.node)
+    sd = single_defs(node)
+    todo = {}
+    for name, v in sd.items():
+        if isinstance(v, ast.Call) and isinstance(v.func, ast.Name):
+            rc = prog.record_class_of(fi, v.func.id)
+            if rc is None or any(isinstance(a, ast.Starred) for a in v.args) or any(k.arg is None for k in v.keywords):
+                continue
+            fields = prog.record_fields(*rc)
+            vals = {}
+            for (fname, _d), a in zip(fields, v.args):
+                vals[fname] = a
+            for k in v.keywords:
+                vals[k.arg] = k.value
+            for fname, d in fields:
+                if fname not in vals and d is not None:
+                    vals[fname] = d
+            if set(vals) != {f_ for f_, _ in fields}:
+                continue
+            # every load of the name is `name.<field>`
+            parents_ok = True
+            loads = [n for n in ast.walk(node) if isinstance(n, ast.Name) and n.id == name and isinstance(n.ctx, ast.Load)]
+            attr_bases = {id(n.value) for n in ast.walk(node) if isinstance(n, ast.Attribute) and isinstance(n.value, ast.Name) and n.value.id == name and n.attr in vals}
+            if any(id(n) not in attr_bases for n in loads):
+                parents_ok = False
+            if parents_ok:
+                todo[name] = (v, [(f_, vals[f_]) for f_, _ in fields])
+    if not todo:
+        return fi
+
+    class T(ast.NodeTransformer):
+        def visit_Assign(self, n: ast.Assign):
+            if len(n.targets) == 1 and isinstance(n.targets[0], ast.Name) and n.targets[0].id in todo and n.value is todo[n.targets[0].id][0]:
+                nm = n.targets[0].id
+                return [ast.copy_location(ast.Assign(targets=[ast.Name(id=f"{nm}__{f_}", ctx=ast.Store())], value=val, lineno=n.lineno, col_offset=n.col_offset), n) for f_, val in todo[nm][1]]
+            self.generic_visit(n)
+            return n
+
+        def visit_AnnAssign(self, n: ast.AnnAssign):
+            if isinstance(n.target, ast.Name) and n.target.id in todo and n.value is todo[n.target.id][0]:
+                nm = n.target.id
+                return [ast.copy_location(ast.Assign(targets=[ast.Name(id=f"{nm}__{f_}", ctx=ast.Store())], value=val, lineno=n.lineno, col_offset=n.col_offset), n) for f_, val in todo[nm][1]]
+            self.generic_visit(n)
+            return n
+
+        def visit_Attribute(self, n: ast.Attribute):
+            if isinstance(n.value, ast.Name) and n.value.id in todo and isinstance(n.ctx, ast.Load):
+                return ast.copy_location(ast.Name(id=f"{n.value.id}__{n.attr}", ctx=ast.Load()), n)
+            self.generic_visit(n)
+            return n
+
+    node = ast.fix_missing_locations(T().visit(node))
+    return FuncInfo(fi.module, fi.qual, node, fi.cls)
+
+
+def inline_class_constants(prog: "Program", fi: FuncInfo) -> FuncInfo:
+    """`self.NAME` / `cls.NAME` / `Class.NAME` -> the literal assigned to NAME in the class body, when no
+    method of the class stores to that attribute (class-level tables such as _MODULE_NAMES)."""
+    import copy
+
+    if not fi.cls:
+        return fi
+    cls = fi.module.classes.get(fi.cls)
+    if cls is None:
+        return fi
+    consts = {}
+    for st in cls.body:
+        t = v = None
+        if isinstance(st, ast.Assign) and len(st.targets) == 1 and isinstance(st.targets[0], ast.Name):
+            t, v = st.targets[0].id, st.value
+        elif isinstance(st, ast.AnnAssign) and isinstance(st.target, ast.Name) and st.value is not None:
+            t, v = st.target.id, st.value
+        if t and isinstance(v, (ast.Tuple, ast.List, ast.Dict, ast.Constant, ast.Set)):
+            try:
+                ast.literal_eval(v)
+                consts[t] = v
+            except Exception:  # noqa: BLE001
+                pass
+    if not consts:
+        return fi
+    stored = {x.attr for n in ast.walk(cls) for x in ast.walk(n) if isinstance(x, ast.Attribute) and isinstance(x.ctx, ast.Store) and isinstance(x.value, ast.Name) and x.value.id in ("self", "cls", fi.cls)}
+
+    class C(ast.NodeTransformer):
+        def visit_Attribute(self, n: ast.Attribute):
+            self.generic_visit(n)
+            if isinstance(n.ctx, ast.Load) and isinstance(n.value, ast.Name) and n.value.id in ("self", "cls", fi.cls) and n.attr in consts and n.attr not in stored:
+                return ast.copy_location(copy.deepcopy(consts[n.attr]), n)
+            return n
+
+    node = ast.fix_missing_locations(C().visit(copy.deepcopy(fi.node)))
+    return FuncInfo(fi.module, fi.qual, node, fi.cls)
+
+
+def fold_constant_tests(fi: FuncInfo) -> FuncInfo:
+    """`if True: A else: B` -> A ; `if False: A else: B` -> B (after helper inlining with literal flags)."""
+    import copy
+
+    def fold(stmts: list) -> list:
+        out = []
+        for st in stmts:
+            for field in ("body", "orelse", "finalbody"):
+                if hasattr(st, field) and isinstance(getattr(st, field), list) and not isinstance(st, (ast.FunctionDef, ast.ClassDef)):
+                    setattr(st, field, fold(getattr(st, field)))
+            if isinstance(st, ast.Try):
+                for h in st.handlers:
+                    h.body = fold(h.body)
+            if isinstance(st, ast.If) and isinstance(st.test, ast.Constant) and isinstance(st.test.value, bool):
+                out += st.body if st.test.value else st.orelse
+                continue
+            out.append(st)
+        return out
+
+    node = copy.deepcopy(fi.node)
+    node.body = fold(node.body) or [ast.Pass()]
+    return FuncInfo(fi.module, fi.qual, ast.fix_missing_locations(node), fi.cls)
+
+
+def expand_handle_aliases(fi: FuncInfo) -> FuncInfo:
+    """`timer = self.timer; timer.step = 0` -> `self.timer.step = 0`: single-assignment locals bound to an
+    object handle of the instance (`self.NAME`, `self.modules["role"]`) are replaced by the handle, when
+    the function never re-binds that handle."""
+    import copy
+
+    node = fi.node
+    # handles re-bound at or after the alias definition (in source order; a loop around both counts)
+    order = []
+
+    def dfs(n, loops):
+        for c in ast.iter_child_nodes(n):
+            if isinstance(c, ast.stmt):
+                order.append((c, loops))
+            dfs(c, loops + (id(c),) if isinstance(c, (ast.For, ast.While)) else loops)
+
+    dfs(node, ())
+    alias_pos = {}
+    for i, (st, loops) in enumerate(order):
+        if isinstance(st, (ast.Assign, ast.AnnAssign)):
+            tg = st.targets[0] if isinstance(st, ast.Assign) else st.target
+            if isinstance(tg, ast.Name):
+                alias_pos[tg.id] = (i, loops)
+    rebinds = []
+    for i, (st, loops) in enumerate(order):
+        for t in st.targets if isinstance(st, ast.Assign) else [st.target] if isinstance(st, (ast.AugAssign, ast.AnnAssign)) else []:
+            rebinds.append((unparse(t), i, loops))
+
+    def is_rebound(name: str, txt: str) -> bool:
+        pos, loops = alias_pos.get(name, (-1, ()))
+        return any(t == txt and (i > pos or (set(l) & set(loops))) for t, i, l in rebinds)
+
+    aliases = {}
+    for k, v in path_alias_defs(node).items():
+        txt = unparse(v)
+        is_handle = (isinstance(v, ast.Attribute) and isinstance(v.value, ast.Name) and v.value.id == "self") or (
+            isinstance(v, ast.Subscript) and unparse(v.value) == "self.modules" and isinstance(v.slice, ast.Constant)
+        )
+        if is_handle and not is_rebound(k, txt):
+            aliases[k] = v
+    if not aliases:
+        return fi
+    node = copy.deepcopy(node)
+
+    class Drop(ast.NodeTransformer):
+        def visit_FunctionDef(self, n):
+            if n is node:
+                self.generic_visit(n)
+            return n
+
+        def visit_Assign(self, n: ast.Assign):
+            if len(n.targets) == 1 and isinstance(n.targets[0], ast.Name) and n.targets[0].id in aliases:
+                return None
+            return n
+
+        def visit_AnnAssign(self, n: ast.AnnAssign):
+            if isinstance(n.target, ast.Name) and n.target.id in aliases and n.value is not None:
+                return None
+            return n
+
+    node = Drop().visit(node)
+    node = _Subst(aliases).visit(node)
+    for b in ast.walk(node):
+        for fld in ("body", "orelse", "finalbody"):
+            if hasattr(b, fld) and isinstance(getattr(b, fld), list) and fld == "body" and not getattr(b, fld):
+                b.body = [ast.Pass()]
+    return FuncInfo(fi.module, fi.qual, ast.fix_missing_locations(node), fi.cls)
+
+
+def strip_bool_tests(fi: FuncInfo) -> FuncInfo:
+    """`if bool(x):` / `while bool(x):` / `bool(x) and y` in a test -> the same with `x`: truth testing
+    applies bool() anyway."""
+    import copy
+
+    node = copy.deepcopy(fi.node)
+
+    def strip(t: ast.expr) -> ast.expr:
+        if isinstance(t, ast.Call) and isinstance(t.func, ast.Name) and t.func.id == "bool" and len(t.args) == 1 and not t.keywords:
+            return strip(t.args[0])
+        if isinstance(t, ast.BoolOp):
+            t.values = [strip(v) for v in t.values]
+        elif isinstance(t, ast.UnaryOp) and isinstance(t.op, ast.Not):
+            t.operand = strip(t.operand)
+        return t
+
+    for n in ast.walk(node):
+        if isinstance(n, (ast.If, ast.While, ast.IfExp)):
+            n.test = strip(n.test)
+    return FuncInfo(fi.module, fi.qual, ast.fix_missing_locations(node), fi.cls)
+
+
+def split_elif_guards(fi: FuncInfo) -> FuncInfo:
+    """`if A: S  elif B: <stop>` -> `if A: S` followed by `if not A and B: <stop>` when the second arm
+    only stops the run (every path raises) and S stores nothing that A reads: the stand-alone guard is
+    what the guard-reading rules look for, and the two forms take the same branches."""
+    import copy
+
+    from .paths import enumerate_paths
+
+    node = copy.deepcopy(fi.node)
+
+    def reads(e: ast.AST) -> set:
+        return {unparse(x) for x in ast.walk(e) if isinstance(x, (ast.Name, ast.Attribute, ast.Subscript))}
+
+    def stores(stmts: list) -> set:
+        out = set()
+        for st in stmts:
+            for x in ast.walk(st):
+                if isinstance(x, (ast.Assign, ast.AugAssign, ast.AnnAssign)):
+                    for t in x.targets if isinstance(x, ast.Assign) else [x.target]:
+                        for y in ast.walk(t):
+                            if isinstance(y, (ast.Name, ast.Attribute, ast.Subscript)):
+                                out.add(unparse(y))
+        return out
+
+    def fold(stmts: list) -> list:
+        out = []
+        for st in stmts:
+            for field in ("body", "orelse", "finalbody"):
+                sub = getattr(st, field, None)
+                if isinstance(sub, list) and sub and isinstance(sub[0], ast.stmt) and not isinstance(st, (ast.FunctionDef, ast.ClassDef)):
+                    setattr(st, field, fold(sub))
+            if isinstance(st, ast.If) and len(st.orelse) == 1 and isinstance(st.orelse[0], ast.If) and not st.orelse[0].orelse:
+                inner = st.orelse[0]
+                try:
+                    stops = all(p.exit == "raise" for p in enumerate_paths(inner.body))
+                except Exception:  # noqa: BLE001
+                    stops = False
+                if stops and not (reads(st.test) & stores(st.body)) and not any(isinstance(x, ast.Call) for x in ast.walk(st.test)):
+                    st.orelse = []
+                    out.append(st)
+                    g = ast.If(test=ast.BoolOp(op=ast.And(), values=[ast.UnaryOp(op=ast.Not(), operand=copy.deepcopy(st.test)), inner.test]), body=inner.body, orelse=[])
+                    out.append(ast.copy_location(g, inner))
+                    continue
+            out.append(st)
+        return out
+
+    node.body = fold(node.body)
+    return FuncInfo(fi.module, fi.qual, ast.fix_missing_locations(node), fi.cls)
+
+
 def reading_view(prog: "Program", fi: FuncInfo, propagate: bool = False) -> FuncInfo:
     """The function as the text-reading rules see it: private helpers inlined, table-driven loops
     unrolled, append-loops as comprehensions, locals forwarded to attributes replaced by the
     attributes, named tests expanded, negated two-armed ifs flipped. With `propagate`, call-free local
     definitions are also substituted forward and branch temporaries sunk into the branches (for rules
     that follow one object, e.g. the release table, through a sequence of statements)."""
-    f = inline_helpers(prog, fi)
+    f = inline_helpers(prog, inline_class_constants(prog, fi))
+    f = lower_partials(project_record_fields(prog, expand_handle_aliases(fold_constant_tests(f))))
+    f = distribute_branch_functions(f)
     f = FuncInfo(f.module, f.qual, unroll_literal_loops(f.node), f.cls)
     f = loops_to_comprehensions(f)
     if propagate:
         f = sink_branch_temporaries(propagate_locals(f))
     f = forward_attr_locals(f)
-    return flip_negated_ifs(expand_tests(f))
+    f = flip_negated_ifs(split_elif_guards(strip_bool_tests(expand_tests(f))))
+    inherit_orig_lines(f.node)
+    return f
 
 
 def release_init_view(prog: "Program") -> FuncInfo:
